@@ -1,484 +1,24 @@
 // C02: timemath.{Midpoint,Median,FaultTolerantMidpoint,Sgn,Inv} and measurements.{Median,FaultTolerantMidpoint}.
+// The recorders and generators live in verifharness/c02lib (shared with cmd/c02race).
 package main
 
 import (
-	"errors"
 	"math"
-	"math/big"
-	"time"
 
-	"example.com/scion-time/base/timemath"
-	"example.com/scion-time/core/measurements"
-
+	c "verifharness/c02lib"
 	"verifharness/lib"
 )
 
 var w *lib.Writer
 
-const lim = int64(1) << 62
-
-// seconds from January 1, year 1 to January 1, 1970 (time.unixToInternal)
-const unixToInternal = int64(62135596800)
-
-func durs(xs []int64) []time.Duration {
-	d := make([]time.Duration, len(xs))
-	for i, x := range xs {
-		d[i] = time.Duration(x)
-	}
-	return d
-}
-
-func fmtDurs(d []time.Duration) string {
-	s := make([]string, len(d))
-	for i, x := range d {
-		s[i] = lib.I(int64(x))
-	}
-	return lib.L(s...)
-}
-
-func nontrivial(vs, tags []int64) bool {
-	if len(vs) < 4 {
-		return false
-	}
-	lo, hi := int64(math.MaxInt64), int64(math.MinInt64)
-	nb := 0
-	for i, v := range vs {
-		if tags[i] != 0 {
-			if v < lo {
-				lo = v
-			}
-			if v > hi {
-				hi = v
-			}
-		} else {
-			nb++
-		}
-	}
-	if nb == 0 || nb > (len(vs)-1)/3 {
-		return false
-	}
-	for i, v := range vs {
-		if tags[i] == 0 && (v < lo || v > hi) {
-			return true
-		}
-	}
-	return false
-}
-
-func isFtm(kind string) bool { return len(kind) >= 3 && kind[:3] == "ftm" }
-
-func durCase(kind string, vs, tags []int64) {
-	d := durs(vs)
-	pan := false
-	var res time.Duration
-	func() {
-		defer func() {
-			if recover() != nil {
-				pan = true
-			}
-		}()
-		if isFtm(kind) {
-			res = timemath.FaultTolerantMidpoint(d)
-		} else {
-			res = timemath.Median(d)
-		}
-	}()
-	t := ""
-	if nontrivial(vs, tags) {
-		t = "nt"
-		if (len(vs)-1)/3 > 0 && countBad(tags) == (len(vs)-1)/3 {
-			t += ",fmax"
-		}
-	}
-	after := fmtDurs(d)
-	if pan {
-		after = "[]"
-	}
-	w.Case(kind, t, lib.V(lib.IL(vs), lib.IL(tags)), lib.V(lib.Bool(pan), lib.I(int64(res)), after))
-}
-
-func countBad(tags []int64) int {
-	n := 0
-	for _, t := range tags {
-		if t == 0 {
-			n++
-		}
-	}
-	return n
-}
-
-func shuffled(r *lib.Rng, vs []int64) []int64 {
-	p := append([]int64(nil), vs...)
-	for i := len(p) - 1; i > 0; i-- {
-		j := r.Intn(i + 1)
-		p[i], p[j] = p[j], p[i]
-	}
-	return p
-}
-
-func permCase(vs, p []int64) {
-	if len(vs) == 0 {
-		return
-	}
-	f1 := timemath.FaultTolerantMidpoint(durs(vs))
-	m1 := timemath.Median(durs(vs))
-	f2 := timemath.FaultTolerantMidpoint(durs(p))
-	m2 := timemath.Median(durs(p))
-	t := ""
-	if len(vs) >= 4 {
-		t = "nt"
-	}
-	w.Case("ftm.perm", t, lib.V(lib.IL(vs), lib.IL(p)), lib.V(lib.I(int64(f1)), lib.I(int64(m1)), lib.I(int64(f2)), lib.I(int64(m2))))
-}
-
-// A measurement as it crosses the boundary: sec = seconds since January 1, year 1 (the ext field of a
-// wall-clock time.Time, any int64), nsec = nanoseconds within the second, off = Offset, err = (Error != nil).
-type mrec struct {
-	sec, nsec, off int64
-	err            bool
-}
-
-var someErr = errors.New("measurement failed")
-
-// mkTime builds the time.Time with the given internal seconds and nanoseconds the way the project obtains its
-// timestamps (time.Unix(..).UTC(): no monotonic reading); (0, 0) is the zero time.Time{}.
-func mkTime(sec, nsec int64) time.Time {
-	if sec == 0 && nsec == 0 {
-		return time.Time{}
-	}
-	return time.Unix(sec-unixToInternal, nsec).UTC() // int64 subtraction wraps; unixTime adds the constant back
-}
-
-func obsTime(t time.Time) (int64, int64) {
-	return t.Unix() + unixToInternal, int64(t.Nanosecond())
-}
-
-func absNs(sec, nsec int64) *big.Int {
-	x := new(big.Int).Mul(big.NewInt(sec), big.NewInt(1000000000))
-	return x.Add(x, big.NewInt(nsec))
-}
-
-func fmtMeas(ms []measurements.Measurement) string {
-	s := make([]string, len(ms))
-	for i, m := range ms {
-		sec, nsec := obsTime(m.Timestamp)
-		s[i] = lib.L(lib.I(sec), lib.I(nsec), lib.I(int64(m.Offset)), lib.Bool(m.Error != nil))
-	}
-	return lib.L(s...)
-}
-
-func measCase(kind string, in []mrec, tags []int64) {
-	ms := make([]measurements.Measurement, len(in))
-	anyErr := false
-	for i, m := range in {
-		ms[i] = measurements.Measurement{Timestamp: mkTime(m.sec, m.nsec), Offset: time.Duration(m.off)}
-		if m.err {
-			ms[i].Error = someErr
-			anyErr = true
-		}
-	}
-	before := fmtMeas(ms)
-	pan := false
-	var res measurements.Measurement
-	func() {
-		defer func() {
-			if recover() != nil {
-				pan = true
-			}
-		}()
-		if isFtm(kind) {
-			res = measurements.FaultTolerantMidpoint(ms)
-		} else {
-			res = measurements.Median(ms)
-		}
-	}()
-	vs := make([]int64, len(in))
-	for i, m := range in {
-		vs[i] = m.off
-	}
-	nt := nontrivial(vs, tags) || len(in) >= 4 && anyErr
-	var tg []string
-	n := len(ms)
-	if !pan && n > 0 {
-		// the two selected measurements, read off the slice as the implementation left it
-		i, j := (n-1)/3, n-1-(n-1)/3
-		if !isFtm(kind) {
-			if n%2 == 0 {
-				i, j = n/2-1, n/2
-			} else {
-				i, j = n/2, n/2
-			}
-		}
-		x, y := ms[i], ms[j]
-		xs, xn := obsTime(x.Timestamp)
-		ys, yn := obsTime(y.Timestamp)
-		d := new(big.Int).Sub(absNs(xs, xn), absNs(ys, yn))
-		if d.Abs(d).Cmp(big.NewInt(math.MaxInt64)) > 0 {
-			tg = append(tg, "sat") // Time.Sub saturates on the selected pair
-			nt = true
-		}
-		if i != j && (x.Timestamp.IsZero() || y.Timestamp.IsZero()) {
-			tg = append(tg, "zero")
-			nt = true
-		}
-		if i != j && x.Timestamp.Equal(y.Timestamp) && x.Offset != y.Offset {
-			tg = append(tg, "eqts")
-			nt = true
-		}
-		if x.Error != nil || y.Error != nil {
-			tg = append(tg, "errsel") // an errored measurement is selected: the result's Error must still be nil
-		}
-		if i > 0 && ms[i-1].Offset == x.Offset || j+1 < n && ms[j+1].Offset == y.Offset || i != j && x.Offset == y.Offset {
-			tg = append(tg, "tie") // which record is selected is the unstable sort's choice
-		}
-	}
-	t := ""
-	if nt {
-		t = "nt"
-	}
-	for _, s := range tg {
-		if t != "" {
-			t += ","
-		}
-		t += s
-	}
-	after := fmtMeas(ms)
-	resS := lib.L("0", "0", "0", "0")
-	if !pan {
-		sec, nsec := obsTime(res.Timestamp)
-		resS = lib.L(lib.I(sec), lib.I(nsec), lib.I(int64(res.Offset)), lib.Bool(res.Error != nil))
-	} else {
-		after = "[]"
-	}
-	w.Case(kind, t, lib.V(before, lib.IL(tags)), lib.V(lib.Bool(pan), resS, after))
-}
-
-func midCase(x, y int64) {
-	r := int64(timemath.Midpoint(time.Duration(x), time.Duration(y)))
-	in := func(v int64) bool { return v > -lim && v < lim }
-	if in(x) && in(y) {
-		t := ""
-		if x != y {
-			t = "nt"
-		}
-		w.Case("ftm.midpoint", t, lib.V(lib.I(x), lib.I(y)), lib.I(r))
-		return
-	}
-	// outside the property's bound: compared with the model only
-	t := "nt"
-	d := new(big.Int).Sub(big.NewInt(y), big.NewInt(x))
-	if !d.IsInt64() {
-		t += ",wrap" // y-x does not fit int64
-	}
-	w.Case("ftm.midpoint.beyond", t, lib.V(lib.I(x), lib.I(y)), lib.I(r))
-}
-
-func sgnInvCase(z int64) {
-	w.Case("ftm.sgninv", "", lib.I(z), lib.V(lib.I(int64(timemath.Sgn(time.Duration(z)))), lib.I(int64(timemath.Inv(time.Duration(z))))))
-}
-
-func genVal(r *lib.Rng, base int64) int64 {
-	switch r.Intn(10) {
-	case 0:
-		return lib.Pick(r, lim-1, -(lim - 1), lim-2, -(lim - 2))
-	case 1:
-		return base + r.Range(-3, 3)
-	case 2:
-		return base
-	case 3:
-		return r.Range(-(lim - 1), lim-1)
-	case 4:
-		return r.Range(-1000, 1000)
-	case 5:
-		return base + r.Range(-1000000, 1000000)*2 + 1 // odd values
-	default:
-		return base + r.Range(-1000000000, 1000000000)
+func put(l c.Line) { w.Case(l.Kind, l.Tags, l.Args, l.Outs) }
+func put2(l c.Line, ok bool) {
+	if ok {
+		put(l)
 	}
 }
 
-// genTagged produces n values of which up to (n-1)/3 are tagged arbitrary
-// and placed adversarially.
-func genTagged(r *lib.Rng, n int) ([]int64, []int64) {
-	base := lib.Pick(r, int64(0), 1000000, -5000000000, r.Range(-(lim / 2), lim/2))
-	vs := make([]int64, n)
-	tags := make([]int64, n)
-	for i := range vs {
-		vs[i] = genVal(r, base)
-		tags[i] = 1
-	}
-	if n == 0 {
-		return vs, tags
-	}
-	nb := r.Intn((n-1)/3 + 1)
-	if r.Intn(3) > 0 {
-		nb = (n - 1) / 3
-	}
-	mode := r.Intn(5)
-	for k := 0; k < nb; k++ {
-		i := r.Intn(n)
-		tags[i] = 0
-		switch mode {
-		case 0:
-			vs[i] = lim - 1 - r.Range(0, 5)
-		case 1:
-			vs[i] = -(lim - 1) + r.Range(0, 5)
-		case 2:
-			if k%2 == 0 {
-				vs[i] = lim - 1 - r.Range(0, 5)
-			} else {
-				vs[i] = -(lim - 1) + r.Range(0, 5)
-			}
-		case 3:
-			vs[i] = r.Range(-(lim - 1), lim-1)
-		default:
-			vs[i] = genVal(r, base)
-		}
-	}
-	return vs, tags
-}
-
-// genBig: n values, EXACTLY f = (n-1)/3 of them arbitrary, at random positions of the slice, all of them
-// above every correct value (place 0), all below (1), or split between both sides (2).  The arbitrary values
-// are at the far end of the permitted range or just outside the range of the correct ones.
-func genBig(r *lib.Rng, n, place int) ([]int64, []int64) {
-	base := lib.Pick(r, int64(0), 1000000, -5000000000, r.Range(-(lim / 4), lim/4))
-	spread := lib.Pick(r, int64(0), 3, 1000, 1000000000)
-	vs := make([]int64, n)
-	tags := make([]int64, n)
-	lo, hi := int64(math.MaxInt64), int64(math.MinInt64)
-	f := (n - 1) / 3
-	pos := make([]int64, n)
-	for i := range pos {
-		pos[i] = int64(i)
-	}
-	pos = shuffled(r, pos)
-	bad := map[int]bool{}
-	for _, p := range pos[:f] {
-		bad[int(p)] = true
-	}
-	for i := range vs {
-		if bad[i] {
-			continue
-		}
-		vs[i] = base + r.Range(-spread, spread)
-		tags[i] = 1
-		if vs[i] < lo {
-			lo = vs[i]
-		}
-		if vs[i] > hi {
-			hi = vs[i]
-		}
-	}
-	near := r.Intn(3) == 0
-	k := 0
-	for i := range vs {
-		if !bad[i] {
-			continue
-		}
-		high := place == 0 || place == 2 && k%2 == 0
-		k++
-		switch {
-		case high && near:
-			vs[i] = hi + 1 + r.Range(0, 3)
-		case high:
-			vs[i] = lim - 1 - r.Range(0, 1000)
-		case near:
-			vs[i] = lo - 1 - r.Range(0, 3)
-		default:
-			vs[i] = -(lim - 1) + r.Range(0, 1000)
-		}
-	}
-	return vs, tags
-}
-
-// modern wall-clock seconds since year 1 (about 2025)
-const modernSec = int64(63871000000)
-
-// addNs returns (sec, nsec) + d nanoseconds, in int64 seconds arithmetic; ok is false when the seconds leave int64.
-func addNs(sec, nsec int64, d *big.Int) (int64, int64, bool) {
-	a := absNs(sec, nsec)
-	a.Add(a, d)
-	q, m := new(big.Int).DivMod(a, big.NewInt(1000000000), new(big.Int))
-	if !q.IsInt64() {
-		return 0, 0, false
-	}
-	return q.Int64(), m.Int64(), true
-}
-
-func genTime(r *lib.Rng, prev []mrec) (int64, int64) {
-	nsec := lib.Pick(r, int64(0), 999999999, 1, r.Range(0, 999999999))
-	switch r.Intn(12) {
-	case 0, 1:
-		return 0, 0 // time.Time{}
-	case 2, 3:
-		return modernSec + r.Range(-100000000, 100000000), nsec
-	case 4: // a time exactly MaxInt64 ns (+- a few) from an earlier one: the edge of Sub's saturation
-		if len(prev) > 0 {
-			p := prev[r.Intn(len(prev))]
-			d := new(big.Int).Add(big.NewInt(math.MaxInt64), big.NewInt(r.Range(-2, 2)))
-			if r.Bool() {
-				d.Neg(d)
-			}
-			if s, n, ok := addNs(p.sec, p.nsec, d); ok {
-				return s, n
-			}
-		}
-		return modernSec + 9223372036, nsec
-	case 5: // the ends of time.Time's range
-		return lib.Pick(r, int64(math.MinInt64), math.MinInt64+1, math.MaxInt64, math.MaxInt64-1,
-			math.MaxInt64-9223372036, math.MinInt64+9223372037, math.MaxInt64-9223372037, math.MinInt64+9223372036), nsec
-	case 6: // Unix epoch, the ends of UnixNano's range
-		return lib.Pick(r, unixToInternal, unixToInternal-9223372037, unixToInternal+9223372036, unixToInternal-1), nsec
-	case 7:
-		return r.I64(), nsec
-	case 8, 9: // equal to an earlier timestamp, or in the same second
-		if len(prev) > 0 {
-			p := prev[r.Intn(len(prev))]
-			if r.Bool() {
-				return p.sec, p.nsec
-			}
-			return p.sec, nsec
-		}
-		return modernSec, nsec
-	case 10: // a few hundred years around now
-		return modernSec + r.Range(-20000000000, 20000000000), nsec
-	default:
-		return r.Range(0, 1000), nsec
-	}
-}
-
-// genFar: few measurements whose timestamps are the zero time, far apart, at the ends of the range, or equal
-func genFar(r *lib.Rng, n int) ([]mrec, []int64) {
-	in := make([]mrec, 0, n)
-	tags := make([]int64, n)
-	base := lib.Pick(r, int64(0), 1000000, -5000000000)
-	for i := 0; i < n; i++ {
-		sec, nsec := genTime(r, in)
-		off := base + r.Range(-20, 20)
-		if r.Intn(4) == 0 && i > 0 {
-			off = in[r.Intn(i)].off // ties
-		}
-		m := mrec{sec: sec, nsec: nsec, off: off, err: r.Intn(6) == 0}
-		if sec == 0 && nsec == 0 && r.Bool() {
-			m.err, m.off = true, 0 // what a failed measurement looks like in the project
-		}
-		in = append(in, m)
-		tags[i] = 1
-	}
-	return in, tags
-}
-
-func withTimes(r *lib.Rng, vs []int64) []mrec {
-	in := make([]mrec, len(vs))
-	for j := range in {
-		sec := lib.Pick(r, unixToInternal+r.Range(0, 1000), modernSec+r.Range(-100000000, 100000000), unixToInternal+r.I64()/4000000000)
-		in[j] = mrec{sec: sec, nsec: r.Range(0, 999999999), off: vs[j], err: r.Intn(5) == 0}
-		if r.Intn(40) == 0 {
-			in[j].sec, in[j].nsec = 0, 0
-		}
-	}
-	return in
-}
+func cp(vs []int64) []int64 { return append([]int64(nil), vs...) }
 
 func main() {
 	a := lib.ParseArgs()
@@ -486,8 +26,8 @@ func main() {
 	defer w.Close()
 	if a.Replay != "" {
 		// replay regenerates from the recorded inputs
-		for _, c := range lib.ReplayLines(a.Replay) {
-			replay(c[0], c[2])
+		for _, l := range lib.ReplayLines(a.Replay) {
+			replay(l[0], l[2])
 		}
 		return
 	}
@@ -498,51 +38,67 @@ func main() {
 		n = 30000
 		rounds = 10
 	}
+	const lim = c.Lim
 	// corpus
-	durCase("ftm.dur", []int64{3}, []int64{1})
-	durCase("ftm.dur", []int64{1001, 1 << 61, 1001, 1001}, []int64{1, 0, 1, 1})
-	durCase("median.dur", []int64{5, 5}, []int64{1, 1})
-	durCase("ftm.dur", nil, nil)
-	durCase("median.dur", nil, nil)
-	measCase("ftm.meas", nil, nil)
-	measCase("median.meas", nil, nil)
-	measCase("ftm.meas", []mrec{{unixToInternal, 100, -50000000, false}, {unixToInternal, 200, 0, true}, {unixToInternal, 300, 10000000, false}, {unixToInternal, 400, 20000000, false}}, []int64{1, 1, 1, 1})
+	put(c.DurLine("ftm.dur", []int64{3}, []int64{1}))
+	put(c.DurLine("ftm.dur", []int64{1001, 1 << 61, 1001, 1001}, []int64{1, 0, 1, 1}))
+	put(c.DurLine("median.dur", []int64{5, 5}, []int64{1, 1}))
+	put(c.DurLine("ftm.dur", nil, nil))
+	put(c.DurLine("median.dur", nil, nil))
+	put(c.MeasLine("ftm.meas", nil, nil))
+	put(c.MeasLine("median.meas", nil, nil))
+	put(c.UTCLine())
+	u := c.UnixToInternal
+	put(c.MeasLine("ftm.meas", []c.Mrec{{u, 100, -50000000, false}, {u, 200, 0, true}, {u, 300, 10000000, false}, {u, 400, 20000000, false}}, []int64{1, 1, 1, 1}))
 	// the zero time.Time{} against a modern time: Sub saturates, in both argument orders
 	for _, kind := range []string{"ftm.meas.far", "median.meas.far"} {
-		measCase(kind, []mrec{{0, 0, 0, true}, {modernSec, 5, 7, false}}, []int64{1, 1})
-		measCase(kind, []mrec{{modernSec, 5, -7, false}, {0, 0, 0, true}}, []int64{1, 1})
-		measCase(kind, []mrec{{modernSec, 5, 1, false}, {modernSec, 5, 9, false}}, []int64{1, 1})
-		measCase(kind, []mrec{{math.MinInt64, 0, 1, false}, {math.MaxInt64, 999999999, 2, false}}, []int64{1, 1})
-		measCase(kind, []mrec{{math.MaxInt64, 999999999, 1, false}, {math.MinInt64, 0, 2, false}}, []int64{1, 1})
-		measCase(kind, []mrec{{math.MaxInt64, 0, 1, false}, {math.MaxInt64 - 9223372036, 145224193, 2, false}}, []int64{1, 1})
-		measCase(kind, []mrec{{math.MinInt64, 999999999, 1, false}, {math.MinInt64 + 9223372037, 854775806, 2, false}}, []int64{1, 1})
-		measCase(kind, []mrec{{0, 0, 4, true}}, []int64{1})
+		put(c.MeasLine(kind, []c.Mrec{{0, 0, 0, true}, {c.ModernSec, 5, 7, false}}, []int64{1, 1}))
+		put(c.MeasLine(kind, []c.Mrec{{c.ModernSec, 5, -7, false}, {0, 0, 0, true}}, []int64{1, 1}))
+		put(c.MeasLine(kind, []c.Mrec{{c.ModernSec, 5, 1, false}, {c.ModernSec, 5, 9, false}}, []int64{1, 1}))
+		put(c.MeasLine(kind, []c.Mrec{{math.MinInt64, 0, 1, false}, {math.MaxInt64, 999999999, 2, false}}, []int64{1, 1}))
+		put(c.MeasLine(kind, []c.Mrec{{math.MaxInt64, 999999999, 1, false}, {math.MinInt64, 0, 2, false}}, []int64{1, 1}))
+		put(c.MeasLine(kind, []c.Mrec{{math.MaxInt64, 0, 1, false}, {math.MaxInt64 - 9223372036, 145224193, 2, false}}, []int64{1, 1}))
+		put(c.MeasLine(kind, []c.Mrec{{math.MinInt64, 999999999, 1, false}, {math.MinInt64 + 9223372037, 854775806, 2, false}}, []int64{1, 1}))
+		put(c.MeasLine(kind, []c.Mrec{{0, 0, 4, true}}, []int64{1}))
 	}
+	// order of the inputs, measurements.  Pinned: the witness of C02_meas_tie_order_refuted (three measurements with
+	// equal offsets, timestamps 1 s, 2 s, 3 s, in two orders) under the property text taken literally, and the same
+	// timestamps with pairwise distinct offsets (where the text does hold).
+	tie := []c.Mrec{{1, 0, 0, false}, {2, 0, 0, false}, {3, 0, 0, false}}
+	put2(c.MeasPermLine("ftm.meas.tieorder", tie, []int64{0, 2, 1}))
+	put2(c.MeasPermLine("ftm.meas.tieorder", []c.Mrec{{1, 0, 10, false}, {2, 0, 20, false}, {3, 0, 30, false}}, []int64{0, 2, 1}))
+	put2(c.MeasPermLine("ftm.meas.perm", tie, []int64{0, 2, 1}))
 	for _, p := range [][2]int64{{3, 3}, {1, 2}, {2, 1}, {-1, -2}, {-2, -1}, {-1, 2}, {2, -1}, {lim - 1, -(lim - 1)}, {-(lim - 1), lim - 1},
 		{lim - 1, lim - 1}, {-(lim - 1), -(lim - 1)}, {lim - 1, lim - 2}, {0, lim - 1}, {-(lim - 1), 0},
 		// at and beyond the bound
 		{-lim, lim}, {lim, -lim}, {lim, lim}, {math.MinInt64, math.MaxInt64}, {math.MaxInt64, math.MinInt64},
 		{math.MaxInt64, math.MaxInt64 - 1}, {math.MinInt64, math.MinInt64 + 1}, {math.MinInt64, 0}, {0, math.MinInt64}, {-1, math.MaxInt64}, {lim, -(lim - 1)}} {
-		midCase(p[0], p[1])
+		put(c.MidLine(p[0], p[1]))
 	}
 	for i := 0; i < n; i++ {
 		k := r.Intn(13)
 		if r.Intn(4) == 0 {
 			k = r.Intn(41)
 		}
-		vs, tags := genTagged(r, k)
-		durCase("ftm.dur", append([]int64(nil), vs...), tags)
-		durCase("median.dur", append([]int64(nil), vs...), tags)
-		permCase(vs, shuffled(r, vs))
+		vs, tags := c.GenTagged(r, k)
+		put(c.DurLine("ftm.dur", cp(vs), tags))
+		put(c.DurLine("median.dur", cp(vs), tags))
+		put2(c.PermLine(vs, c.Shuffled(r, vs)))
 		// measurements
-		in := withTimes(r, vs)
-		measCase("ftm.meas", in, tags)
-		measCase("median.meas", in, tags)
+		in := c.WithTimes(r, vs)
+		put(c.MeasLine("ftm.meas", in, tags))
+		put(c.MeasLine("median.meas", in, tags))
 		// zero / far-apart / equal timestamps
-		far, ftags := genFar(r, 1+r.Intn(9))
-		measCase("ftm.meas.far", far, ftags)
-		measCase("median.meas.far", far, ftags)
-		x, y := genVal(r, 0), genVal(r, 0)
+		far, ftags := c.GenFar(r, 1+r.Intn(9))
+		put(c.MeasLine("ftm.meas.far", far, ftags))
+		put(c.MeasLine("median.meas.far", far, ftags))
+		// the same measurements in another order
+		if r.Bool() {
+			put2(c.MeasPermLine("ftm.meas.perm", in, c.ShuffledPerm(r, len(in))))
+		} else {
+			put2(c.MeasPermLine("ftm.meas.perm", far, c.ShuffledPerm(r, len(far))))
+		}
+		x, y := c.GenVal(r, 0), c.GenVal(r, 0)
 		switch r.Intn(8) {
 		case 0:
 			x, y = r.I64(), r.I64() // outside the property's bound; compared with the model only
@@ -554,23 +110,50 @@ func main() {
 				x, y = y, x
 			}
 		}
-		midCase(x, y)
-		sgnInvCase(lib.Pick(r, math.MinInt64, math.MaxInt64, 0, 1, -1, r.I64()))
+		put(c.MidLine(x, y))
+		put(c.SgnInvLine(lib.Pick(r, math.MinInt64, math.MaxInt64, 0, 1, -1, r.I64())))
 	}
 	// every n in 1..200 with exactly floor((n-1)/3) arbitrary values, all-high / all-low / split
 	for round := 0; round < rounds; round++ {
 		for k := 1; k <= 200; k++ {
 			for place := 0; place < 3; place++ {
-				vs, tags := genBig(r, k, place)
-				durCase("ftm.dur.big", append([]int64(nil), vs...), tags)
+				vs, tags := c.GenBig(r, k, place)
+				put(c.DurLine("ftm.dur.big", cp(vs), tags))
 				if place == (k+round)%3 {
-					durCase("median.dur.big", append([]int64(nil), vs...), tags)
-					permCase(vs, shuffled(r, vs))
-					in := withTimes(r, vs)
-					measCase("ftm.meas.big", in, tags)
-					measCase("median.meas.big", in, tags)
+					put(c.DurLine("median.dur.big", cp(vs), tags))
+					put2(c.PermLine(vs, c.Shuffled(r, vs)))
+					in := c.WithTimes(r, vs)
+					put(c.MeasLine("ftm.meas.big", in, tags))
+					put(c.MeasLine("median.meas.big", in, tags))
 				}
 			}
 		}
+	}
+	// sparse large sizes (a size-dependent path of the sort or of the selection above 256 elements)
+	for round := 0; round < rounds; round++ {
+		for _, k := range []int{257, 1000, 5000} {
+			for place := 0; place < 3; place++ {
+				if k > 257 && place != (k/1000+round)%3 {
+					continue
+				}
+				vs, tags := c.GenBig(r, k, place)
+				put(c.DurLine("ftm.dur.huge", cp(vs), tags))
+				if k <= 1000 {
+					put(c.DurLine("median.dur.huge", cp(vs), tags))
+					in := c.WithTimes(r, vs)
+					put(c.MeasLine("ftm.meas.huge", in, tags))
+					put(c.MeasLine("median.meas.huge", in, tags))
+				}
+			}
+		}
+	}
+	// the functions called from several goroutines at once on independent inputs (sync.Run calls
+	// FaultTolerantMidpoint from two goroutines per round): every result is compared with the model
+	per := 150
+	if a.Tier == "thorough" {
+		per = 1500
+	}
+	for _, l := range c.Concurrent(r, 8, per) {
+		put(l)
 	}
 }
